@@ -85,6 +85,13 @@ type integEngine struct {
 	maxExecPar  int
 	writing     atomic.Value // string: exec key whose chunk is being delivered
 	limboUsed   int
+	runGID      []runRec
+}
+
+type runRec struct {
+	GID  int64
+	Task string
+	Seq  int
 }
 
 func (e *integEngine) onEvent(ev *Event) {
@@ -101,6 +108,10 @@ func (e *integEngine) onEvent(ev *Event) {
 		}
 		if n > e.maxExecPar {
 			e.maxExecPar = n
+		}
+	case "run-enter", "park:run-enter":
+		if gid, ok := ev.Data.(int64); ok {
+			e.runGID = append(e.runGID, runRec{GID: gid, Task: ev.Subject, Seq: ev.Seq})
 		}
 	case "exec-end":
 		if r := e.execBy[ev.Subject]; r != nil {
@@ -224,10 +235,11 @@ func (e *integEngine) installHooks() {
 		switch kind {
 		case "run-enter":
 			t := subj.(*task.Task)
+			gid := curGID()
 			if e.prof.UseRunEnter {
-				c.Yield("run-enter", t.Name, nil)
+				c.Yield("run-enter", t.Name, gid)
 			} else {
-				c.Note("run-enter", t.Name, "")
+				c.NoteData("run-enter", t.Name, "", gid)
 			}
 		case "ctx-up-enter":
 			// always a park point while the context is not up yet: a goroutine entering Up()
